@@ -18,7 +18,7 @@ META = {
     "id": "C12",
     "coq_targets": ["Props/C12.vo", "Extract/Extract_C12.vo"],
     "technique": "Coq proof over an executable model of the import pipeline (insertion-ordered dicts for the name map, the DataFrame and the InMemoryGeff property dict; fold invariants for the renaming loop and for _combine_multi_value_props) + differential correspondence of the extracted model with tracks_from_df on real DataFrames and import_from_geff on real GEFF stores + direct oracle from the generating table",
-    "level_text": "Theorems C12_csv_nodes_edges / C12_csv_values / C12_csv_keys / C12_renumber_injective / C12_csv_reject_* / C12_geff_* hold for every table (any number of rows and columns, any cells), every name map satisfying the stated side conditions and every malformed variant; the hand-written model is tied to /repo by running the extracted model and the implementation on the same generated DataFrames / GEFF stores and comparing node ids (in order), edges, and every imported attribute (key order included).",
+    "level_text": "Theorems C12_csv_nodes_edges / C12_csv_values / C12_csv_keys / C12_renumber_injective / C12_csv_reject_* / C12_geff_* hold for every table (any number of rows and columns, any cells), every name map satisfying the stated side conditions and every malformed variant; the hand-written model is tied to /repo by running the extracted model and the implementation on the same generated DataFrames / GEFF stores and comparing node ids (in order), edges, and every imported attribute (key order included). Source tie: the import pipeline of the model (rename, combination of list-mapped columns, id integerisation, edge derivation, structural validation, graph construction, handle_segmentation; whole CSV build = import_csv, whole GEFF build = import_geff) equals, for all arguments, the code translated on every run from _tracks_builder.py, csv/_import.py, geff/_import.py and _validation.py (Gen/ImportPipeline_gen.v; Proofs/ImportTie.v, 24 closed theorems); pandas dtype inference, geff's id validators and file reading stay oracle inputs.",
     "level_note": "Trusted: Coq kernel, extraction (ExtrOcamlBasic), OCaml driver, Python harness (interning of strings / floats into cells). Oracles: pandas dtype inference of the id column (flag ityp, read from the real DataFrame), geff validate_tracklets / validate_lineages (their answers during the implementation run are recorded and given to the model), geff read_to_memory (the arrays it returns are the model's input on the GEFF path). Modelled not verified: pandas Series.unique/map/is_unique, numpy column_stack, networkx node/edge insertion. Not modelled: CSV text parsing, numpy dtype coercion of values (an empty cell of a mapped column is imported as NaN / the string 'nan'), ast.literal_eval of list-like strings, None values inside a name map, segmentation and node_features arguments, edge properties, SolutionTracks construction (it adds track_id / lineage_id when absent).",
     "design_ref": "DESIGN.md section 9 (C12)",
     "assumptions": [
@@ -30,7 +30,8 @@ META = {
         "by design: a mapped track_id / lineage_id column that does not validate as tracklets / lineages is dropped with a warning and recomputed by SolutionTracks (the value theorems assume the validator's answer for these two keys)",
         "GEFF: in-memory part only (after geff read_to_memory); edge properties ignored; columns of list mappings are 1-D properties",
     ],
-    "trusted": ["pandas is_integer_dtype / unique / map / is_unique; numpy column_stack; geff.validate.tracks (recorded answers); geff read_to_memory / write / write_arrays"],
+    "trusted": ["translator harness/translate_import.py (closed idiom table; fail closed) with coq/Model/PyRt6.v",
+                "pandas is_integer_dtype / unique / map / is_unique; numpy column_stack; geff.validate.tracks (recorded answers); geff read_to_memory / write / write_arrays"],
 }
 
 STD = {"time": 1, "id": 2, "parent_id": 3, "pos": 4, "z": 5, "y": 6, "x": 7, "track_id": 8, "lineage_id": 9,
@@ -593,7 +594,15 @@ def gen_geff(rng, mode):
             props[c] = [dyadic(rng) for _ in range(n)]
         if mode == "vec_missing" and n >= 2:
             props["w1"][rng.randrange(n)] = None
+            if rng.random() < 0.5:   # the other component is missing elsewhere
+                j = rng.randrange(n)
+                if props["w1"][j] is not None:
+                    props["w0"][j] = None
         nm["vec"] = ["w0", "w1"]
+        if rng.random() < 0.5:       # the components are ALSO mapped on their own (duplicate mapping is supported:
+            nm["wa"] = "w0"          # each key gets a copy of the data - and of its missing mask)
+            if rng.random() < 0.5:
+                nm["wb"] = "w1"
     if mode == "dupmap":
         nm["dupA"] = rng.choice(list(props))
         if isinstance(props[nm["dupA"]][0], list):
@@ -780,6 +789,20 @@ def plan(ctx):
         for _ in range(3 if q else 20):
             cases.append(gen_geff(rng, m))
     return cases
+
+
+def pre_build(ctx):
+    # re-translate the import pipeline (Gen/ImportPipeline_gen.v, tied by Proofs/ImportTie.v)
+    import translate_import
+
+    ok, msg = translate_import.regenerate()
+    if not ok:
+        raise RuntimeError("translator refused the import sources: %s" % msg)
+    import translate_numpy_utils
+
+    ok, msg = translate_numpy_utils.regenerate_relabel()
+    if not ok:
+        raise RuntimeError("translator refused _import_segmentation.py: %s" % msg)
 
 
 def run(ctx):
